@@ -23,6 +23,7 @@
   Core Lean only.
 -/
 import Gedcom.Model.Types
+import Gedcom.Model.Node
 import Gedcom.Generated.CacheFlags
 namespace Gedcom.Cache
 open Gedcom
@@ -743,5 +744,63 @@ def run (fl : Flags) (s : St) : List Op → St × List Obs
 def initOf (heap : List NodeRec) (roots : List Id) : St :=
   { heap := heap, roots := roots, ptrIdx := buildIdx ⟨heap, roots⟩, dfams := none, known := [],
     ncache := [], cHusb := [], cWife := [], cFams := [], cSpouses := [] }
+
+/-! ## between node trees and the heap -/
+
+mutual
+/-- preorder allocation of a decoded tree; `fam` = most recent FAM record seen (the decoder's
+    `family` cursor) -/
+def allocNode : Node → List NodeRec × Id → (List NodeRec × Id) × Id
+  | .mk t v p ks, (heap, fam) =>
+    let id := heap.length
+    let fam := if t == tFAM then id else fam
+    let r := allocForest ks (heap ++ [⟨t, v, p, [], fam⟩], fam)
+    ((setKids r.1.1 id r.2, r.1.2), id)
+def allocForest : List Node → List NodeRec × Id → (List NodeRec × Id) × List Id
+  | [], st => (st, [])
+  | n :: ns, st =>
+    let r1 := allocNode n st
+    let r2 := allocForest ns r1.1
+    (r2.1, r1.2 :: r2.2)
+end
+
+/-- the state right after decoding: what `NewDocumentFromString` builds from a forest -/
+def ofForest (f : Forest) : St :=
+  let r := allocForest f ([], 0)
+  initOf r.1.1 r.2
+
+/-- the tree below node `n` (cut at depth `fuel`; `heap.length` suffices for a tree-shaped heap) -/
+def toNode (a : Abs) : Nat → Id → Node
+  | 0, n => .mk (a.tag n) (a.value n) (a.ptr n) []
+  | fuel + 1, n => .mk (a.tag n) (a.value n) (a.ptr n) ((a.kids n).map (toNode a fuel))
+
+/-- the forest `Document.String()` writes out -/
+def toForest (a : Abs) : Forest := a.roots.map (toNode a a.heap.length)
+
+/-- renaming of the nodes a view mentions -/
+def View.map (φ : Id → Id) : View → View
+  | .nodesWithTag n t => .nodesWithTag (φ n) t
+  | .individuals => .individuals
+  | .families => .families
+  | .byPointer p => .byPointer p
+  | .indFamilies i => .indFamilies (φ i)
+  | .spouses i => .spouses (φ i)
+  | .parents i => .parents (φ i)
+  | .children i => .children (φ i)
+  | .husband f => .husband (φ f)
+  | .wife f => .wife (φ f)
+  | .famChildren f => .famChildren (φ f)
+
+def Obs.map (φ : Id → Id) : Obs → Obs
+  | .none => .none
+  | .bad => .bad
+  | .ids l => .ids (l.map (Option.map φ))
+
+/-- the node a view is asked of -/
+def View.subject : View → Option Id
+  | .nodesWithTag n _ => some n
+  | .individuals | .families | .byPointer _ => none
+  | .indFamilies i | .spouses i | .parents i | .children i => some i
+  | .husband f | .wife f | .famChildren f => some f
 
 end Gedcom.Cache
